@@ -420,6 +420,11 @@ async fn marker_txn(srv: &Srv, ct: Duration, tag: &str) -> Result<(), String> {
 /// Report a violation, keeping at most two witnesses per signature and worker (the accumulator
 /// caps the number of stored violations).
 fn viol(acc: &mut Acc, sig: &str, witness: Json) {
+    if std::env::var("FS_DEBUG_VIOL").map(|v| sig.contains(&v)).unwrap_or(false) {
+        let mut w = witness.to_string();
+        w.truncate(2500);
+        eprintln!("VIOL {sig} {w}");
+    }
     let have = acc.violations.iter().filter(|v| v.signature == sig).count();
     if have < 2 {
         acc.violation(sig, witness);
@@ -788,7 +793,14 @@ async fn run_chain(
     let cust = stage_cred_session(&srv, secs(20)).await?;
     let v0 = observe(&srv, secs(25), Some(&cust)).await?;
     let r0 = raw_db(file)?;
-    let layer = if kind.idm_only() || rng.bool() { Layer::Idm } else { Layer::Qs };
+    let layers: Vec<Layer> = [Layer::Qs, Layer::Idm]
+        .into_iter()
+        .filter(|l| counts.contains_key(&(shape_idx, kind, *l)))
+        .collect();
+    if layers.is_empty() {
+        return Err("no count for chain".into());
+    }
+    let layer = *rng.pick(&layers);
     let Some((n, n_ops, _, _)) = counts.get(&(shape_idx, kind, layer)).cloned() else {
         return Err("no count for chain".into());
     };
@@ -808,6 +820,14 @@ async fn run_chain(
         if matches!(rep.outcome, Outcome::Committed) {
             // fault absorbed: state legitimately moved on; end the chain here
             acc.count("chain.ended_by_absorbed_fault");
+            return Ok(());
+        }
+        if let Outcome::Panicked(msg) = &rep.outcome {
+            // kanidm's copy-on-write cells are poisoned after an unwind through a write
+            // transaction: this server cannot continue (the isolated cases judge that situation
+            // through the file and a restart)
+            acc.count("chain.ended_by_panic_in_kanidm");
+            acc.observe("panics_in_kanidm", msg);
             return Ok(());
         }
         if matches!(rep.outcome, Outcome::CommitFailed { .. }) {
@@ -900,9 +920,21 @@ pub fn run(args: Args) {
         dir: sc.path().to_path_buf(),
     };
 
+    // --replay <file>: re-run exactly the case of a recorded witness
+    let replay: Option<Json> = args
+        .replay
+        .as_ref()
+        .and_then(|p| kvcore::run::load_replay(p))
+        .filter(|w| w["case"]["kind"].is_string());
+    if args.replay.is_some() && replay.is_none() {
+        println!("replay file has no single case (chained failures are re-derived by a full thorough run)");
+    }
     // (shape, kind, layer) combinations
     let mut combos: Vec<(usize, Kind, Layer)> = Vec::new();
-    let only: Option<String> = std::env::var("FS_KINDS").ok();
+    let only: Option<String> = match &replay {
+        Some(w) => w["case"]["kind"].as_str().map(|s| s.to_string()),
+        None => std::env::var("FS_KINDS").ok(),
+    };
     for s in 0..nshapes {
         for k in ALL_KINDS {
             if let Some(o) = &only {
@@ -924,6 +956,11 @@ pub fn run(args: Args) {
                 &[Layer::Idm]
             };
             for l in layers {
+                if let Some(w) = &replay {
+                    if w["case"]["layer"] != json!(l.name()) || w["case"]["shape"] != json!(SHAPES[s].name) {
+                        continue;
+                    }
+                }
                 combos.push((s, k, *l));
             }
         }
@@ -1053,6 +1090,37 @@ pub fn run(args: Args) {
         }
     }
     // deterministic spread of the work
+    if std::env::var("FS_CHAIN_ONLY").is_ok() {
+        cases.clear();
+    }
+    if let Some(w) = &replay {
+        cases.retain(|c| json!(format!("{:?}", c.mode)) == w["case"]["mode"]);
+        if cases.is_empty() {
+            // a sampled fault point of a long transaction: add it
+            let k = w["case"]["mode"]
+                .as_str()
+                .and_then(|m| m.strip_prefix("FailAt("))
+                .and_then(|m| m.strip_suffix(')'))
+                .and_then(|m| m.parse::<u64>().ok());
+            if let (Some(k), Some((s, kind, l))) = (k, combos.first()) {
+                if let Some((n, n_ops, log, raw_after)) = counts.get(&(*s, *kind, *l)) {
+                    if k <= *n {
+                        cases.push(Case {
+                            shape: *s,
+                            kind: *kind,
+                            layer: *l,
+                            mode: Mode::FailAt(k),
+                            point_kind: log.get(k as usize - 1).copied().unwrap_or("?"),
+                            in_commit: k > *n_ops,
+                            restart: true,
+                            expected_after: if kind.deterministic() { raw_after.clone() } else { None },
+                        });
+                    }
+                }
+            }
+        }
+        println!("replaying {} case(s): {}", cases.len(), w["case"]);
+    }
     let mut order: Vec<usize> = (0..cases.len()).collect();
     Rng::new(kvcore::rng::mix(args.seed, 4, 4)).shuffle(&mut order);
     run.extra("fault_cases_enumerated", json!(cases.len()));
@@ -1104,7 +1172,7 @@ pub fn run(args: Args) {
     }
 
     // phase 3 (thorough): chained failures
-    if tier == kvcore::Tier::Thorough {
+    if tier == kvcore::Tier::Thorough && replay.is_none() {
         let env = &env;
         let counts = &counts;
         let seed = args.seed;
@@ -1131,7 +1199,12 @@ pub fn run(args: Args) {
         });
     }
 
-    // thresholds
+    // thresholds (a replay judges one case only)
+    if replay.is_some() {
+        drop(env);
+        drop(sc);
+        run.finish();
+    }
     for k in ALL_KINDS {
         let c = run.acc.get(&format!("control.commits.{}", k.name()));
         run.require(c > 0, &format!("transaction kind {} never committed in the counting run", k.name()));
